@@ -811,8 +811,14 @@ func (fx *FnExec) localByName(name string, loop *ssa.BasicBlock) ssa.Value {
 	for _, b := range fx.Fn.Blocks {
 		for _, in := range b.Instrs {
 			d, ok := in.(*ssa.DebugRef)
-			if !ok || d.IsAddr {
+			if !ok {
 				continue
+			}
+			if d.IsAddr {
+				// an addressable local (var b T; b.M()): the name denotes the variable's address
+				if _, isAlloc := d.X.(*ssa.Alloc); !isAlloc {
+					continue
+				}
 			}
 			id, ok := d.Expr.(*ast.Ident)
 			if !ok || id.Name != name {
@@ -1181,6 +1187,29 @@ func (fx *FnExec) evalCallC(x *ast.CallExpr, env *evalEnv) (cval, error) {
 		fx.declareFun(fn.Name, sorts, "Int")
 		return cval{S: "(" + fn.Name + " " + strings.Join(args, " ") + ")", Sort: "Int", T: types.Typ[types.Int]}, nil
 	}
+	if fn.Name == "gsel" || fn.Name == "gstore" {
+		// ghost arrays: gsel(a, k), gstore(a, k, v)
+		a, err := fx.evalC(x.Args[0], env)
+		if err != nil {
+			return cval{}, err
+		}
+		k, err := fx.evalC(x.Args[1], env)
+		if err != nil {
+			return cval{}, err
+		}
+		if k.S == "" && k.P != nil {
+			k.S = fx.materialise(Val{P: k.P, T: k.T})
+		}
+		es := arrayElemSort(a.Sort)
+		if fn.Name == "gsel" {
+			return cval{S: "(select " + a.S + " " + k.S + ")", Sort: es}, nil
+		}
+		v, err := fx.evalC(x.Args[2], env)
+		if err != nil {
+			return cval{}, err
+		}
+		return cval{S: "(store " + a.S + " " + k.S + " " + v.S + ")", Sort: a.Sort}, nil
+	}
 	if fn.Name == "elemsArr" || fn.Name == "off" {
 		v, err := fx.evalC(x.Args[0], env)
 		if err != nil {
@@ -1484,4 +1513,15 @@ func replaceWord(s, word, repl string) string {
 		i++
 	}
 	return b.String()
+}
+
+// arrayElemSort: "(Array Int Str)" -> "Str"
+func arrayElemSort(s string) string {
+	s = strings.TrimSpace(s)
+	if !strings.HasPrefix(s, "(Array ") {
+		return "Int"
+	}
+	inner := strings.TrimSuffix(strings.TrimPrefix(s, "(Array "), ")")
+	_, j := readSexp(inner, 0)
+	return strings.TrimSpace(inner[j:])
 }
